@@ -209,7 +209,7 @@ def analyse_fn(info, flavour, summaries, with_cells=False, callbacks_acquire=Non
     live = []  # dict(lock, mode, from, to, name)
     obligations = []
     for pos, kind, d in events:
-        held = [g for g in live if g['from'] <= pos < g['to']]
+        held = [g for g in live if g['from'] <= pos < g['to'] and not any(a <= pos < b for (a, b) in g.get('dead', []))]
         line = info.line0 + body.count('\n', 0, pos)
         if kind == 'acq':
             for g in held:
@@ -238,11 +238,11 @@ def analyse_fn(info, flavour, summaries, with_cells=False, callbacks_acquire=Non
                     to = enclosing_block_end(pos)
                     name = m.group(1)
                 elif re.search(r'if\s+let\s+[^=]*=\s*$|while\s+let\s+[^=]*=\s*$|match\s+$', body[max(0, pos - 200):pos]) or header_is_scrutinee(body, pos):
-                    to = stmt_end(body, d['end'])
+                    to = stmt_end(body, call_end)
                     name = None
                 else:
                     m2 = re.search(r'let\s+(?:mut\s+)?(\w+)\s*(?::[^=;]+)?=\s*$', body[:pos])
-                    to = stmt_end(body, d['end'])
+                    to = stmt_end(body, call_end)
                     name = None
                     # (a chain that consumes the guard -- iter().map().sum(), .collect() -- ends with the statement)
                 live.append(dict(lock=d['lock'], mode=d['mode'], **{'from': d['end'], 'to': to}, name=name, text=d['text'], line=line))
@@ -251,9 +251,11 @@ def analyse_fn(info, flavour, summaries, with_cells=False, callbacks_acquire=Non
                 if mb:
                     live[-1]['name'] = mb.group(1)
         elif kind == 'drop':
+            # an explicit drop ends the guard for the rest of the block the drop stands in; after a nested
+            # (conditional / diverging) block the guard may still be held on the other path, so it counts as live again
             for g in live:
                 if g['name'] == d['name'] and g['from'] <= pos < g['to']:
-                    g['to'] = pos
+                    g.setdefault('dead', []).append((pos, min(enclosing_block_end(pos), g['to'])))
         elif kind == 'call':
             callee = summaries[d['callee']]
             for g in held:
